@@ -181,5 +181,32 @@ fn main() {
             other => println!("C18-REPLAY MISMATCH case=level reached by {words:?}: candidates {:?}, expected {want:?}", other.ok()),
         }
     }
+    // the shell adapters (public trait methods) with every small argument vector, incl. the empty one (nothing after `--`)
+    {
+        use clap_complete::env::EnvCompleter;
+        let shells: Vec<(&str, Box<dyn Fn() -> Box<dyn EnvCompleter>>)> = vec![
+            ("bash", Box::new(|| Box::new(clap_complete::env::Bash))),
+            ("elvish", Box::new(|| Box::new(clap_complete::env::Elvish))),
+            ("fish", Box::new(|| Box::new(clap_complete::env::Fish))),
+            ("powershell", Box::new(|| Box::new(clap_complete::env::Powershell))),
+            ("zsh", Box::new(|| Box::new(clap_complete::env::Zsh))),
+        ];
+        for (name, mk) in &shells {
+            for argv in [vec![], vec!["prog"], vec!["prog", ""], vec!["prog", "--v"]] {
+                n += 1;
+                let sh = mk();
+                let a: Vec<OsString> = argv.iter().map(OsString::from).collect();
+                let r = std::panic::catch_unwind(std::panic::AssertUnwindSafe(move || {
+                    let mut cmd = cli3();
+                    let mut buf = Vec::new();
+                    let _ = sh.write_complete(&mut cmd, a, None, &mut buf);
+                }));
+                if let Err(e) = r {
+                    let msg = e.downcast_ref::<String>().cloned().or_else(|| e.downcast_ref::<&str>().map(|s| s.to_string())).unwrap_or_default();
+                    println!("C18-REPLAY PANIC case=shell adapter {name}::write_complete({argv:?}) msg={}", msg.chars().take(100).collect::<String>());
+                }
+            }
+        }
+    }
     println!("C18-REPLAY DONE {n} cases");
 }
